@@ -24,6 +24,7 @@ for d, pid, wave in sources():
     for diff in sorted(glob.glob(d + '/m[0-9].diff')):
         key = pid + '-' + wave + os.path.basename(diff)[:-5]
         n_seen += 1
+        if os.environ.get('ONLY') and pid not in os.environ['ONLY'].split(','): continue
         if SHARD and n_seen % sk != si: continue
         if key in out and not os.environ.get('FORCE'): continue
         res = {}
